@@ -5,4 +5,5 @@ def f(x):
     a = x + 1
     b = a * 2
     c: "@W" = b + 1
+    d: int                      # only declared: a plain declaration unless somebody probes d
     return b
